@@ -346,7 +346,7 @@ CHECKS = {
              "env": {"GBV_REPO_BIN": "{repo_bin}", "GBV_REPO_BIN_JIT": "{repo_bin_jit}"}},
             {"variant": "jit-dbg", "monitor": "c18", "shards": 16, "args": {"noreal": 1}},
         ],
-        "floors": {"quick": {"evaluations": 500, "sc-writes-with-bit7": 5_000, "sc-writes-without-bit7": 1_000, "runs-of-the-real-binaries": 30, "cache-pressure:blocks-translated": 5_000,
+        "floors": {"quick": {"evaluations": 500, "long-lines:transfers": 70_000, "sc-writes-with-bit7": 5_000, "sc-writes-without-bit7": 1_000, "runs-of-the-real-binaries": 30, "cache-pressure:blocks-translated": 5_000,
                              "quiet-sweep:writes-with-stdout-captured": 1_000_000},
                    "thorough": {"evaluations": 3_000}},
         "exhaustive": {"quick": False, "thorough": False},
